@@ -1,6 +1,6 @@
 """Per-property configuration of ./check (theorem lists, harness commands, evidence texts)."""
 
-GENERATORS = ["gen_ucode.py", "gen_consts.py", "gen_c01.py", "gen_grammar.py"]
+GENERATORS = ["gen_ucode.py", "gen_consts.py", "gen_c01.py", "gen_muldiv.py", "gen_grammar.py"]
 
 TRUSTED_BASE = [
     "Lean 4.33 kernel (re-checkable with leanchecker); axioms limited to propext, Classical.choice, Quot.sound (audited per theorem with #print axioms)",
@@ -141,17 +141,19 @@ prop("C15",
 
 prop("C01",
      modules=["Emu2a.Props.C01"],
-     theorems=["Emu2a.C01.isa_refines_partial", "Emu2a.C01.isa_refines_seq", "Emu2a.C01.one_byte_refines",
+     theorems=["Emu2a.C01.isa_refines", "Emu2a.C01.isa_refines_seq", "Emu2a.C01.one_byte_refines",
                "Emu2a.C01.two_byte_refines", "Emu2a.C01.second_any", "Emu2a.C01.prefix_any", "Emu2a.C01.iter_pendInt",
                "Emu2a.C01.exec_core", "Emu2a.C01.op_64", "Emu2a.C01.op_84", "Emu2a.C01.op_5C", "Emu2a.C01.op_28",
                "Emu2a.C01.op_2C", "Emu2a.C01.op_21", "Emu2a.C01.pre_FF", "Emu2a.C01.sec_1F", "Emu2a.C01.sec_2C",
-               "Emu2a.C01.sec_6C"],
+               "Emu2a.C01.sec_6C", "Emu2a.C01.mulLoop_spec", "Emu2a.C01.mul_loop_0", "Emu2a.C01.mul_loop_3",
+               "Emu2a.C01.div_loop_0", "Emu2a.C01.div_loop_3", "Emu2a.C01.op_B6", "Emu2a.C01.op_CD",
+               "Emu2a.C01.page_B", "Emu2a.C01.page_C"],
      harness="c01",
      shrink=True,
      timeout=14400,
      exhaustive={"quick": False, "thorough": True},
-     level_text="Lean refinement theorem isa_refines_partial (and isa_refines_seq for instruction sequences): from an instruction boundary with arbitrary R0-R2, PC, SP, flag register, bus contents AND arbitrary scratch registers / instruction register / ALU latch, the data path of the micro-machine over the control store regenerated from the source reaches the next boundary in exactly the architectural state Isa.step prescribes (registers, all flag-register bits, SP, the whole bus). Proved by symbolic execution for every defined first byte outside MUL/DIV (186 generated lemmas), all 16 prefixes and all 82 defined second bytes (284 lemmas), composed for two-byte forms and sequences. PARTIAL: the data-dependent MUL and DIV micro-loops (0xB0-0xCF) are not yet covered by a theorem; for them the property is decided only up to the search: every operand pair x carry-in on the real machine against Isa.step in the thorough tier. The model's edge function is tied to raw/mod.rs, signals.rs, alu.rs by edge-by-edge differential dumps (all private fields) and the exhaustive ALU / next-address comparisons of C08/C09",
-     technique="Lean 4 refinement proof by symbolic execution of the translated control store (284 generated per-opcode lemmas + composition) + differential search: every instruction from random/exhaustive architectural states on the real machine against the ISA specification",
+     level_text="Lean refinement theorem isa_refines (and isa_refines_seq for instruction sequences): from an instruction boundary with arbitrary R0-R2, PC, SP, flag register, bus contents AND arbitrary scratch registers / instruction register / ALU latch, the data path of the micro-machine over the control store regenerated from the source reaches the next boundary in exactly the architectural state Isa.step prescribes (registers, all flag-register bits, SP, the whole bus) - for EVERY defined instruction: every defined first byte (218 generated lemmas incl. the 32 MUL/DIV opcodes), all 16 prefixes and all 82 defined second bytes, composed for two-byte forms and sequences. The data-dependent MUL and DIV micro-loops are proved per destination register by one symbolic pass through the loop body and induction over the number of passes (mul_loop_k, div_loop_k: the loop computes the pure functions mulLoop / repeated subtraction for any operand); mulLoop_spec (the loop multiplies, carry = product > 255) by kernel evaluation over all 65 536 operand pairs, the DIV quotient by an arithmetic proof, division by zero (0xFF, carry) by symbolic execution. The model's edge function is tied to raw/mod.rs, signals.rs, alu.rs by edge-by-edge differential dumps (all private fields) and the exhaustive ALU / next-address comparisons of C08/C09; every instruction is also executed on the real machine against Isa.step",
+     technique="Lean 4 refinement proof by symbolic execution of the translated control store (316 generated per-opcode lemmas, loop lemmas by induction for MUL/DIV, kernel evaluation of the multiplication table) + differential search: every instruction from random/exhaustive architectural states on the real machine against the ISA specification",
      rule="(1) every defined first byte (x defined second bytes) x random architectural states with addresses partly biased into 0xF0-0xFF, random RAM/input registers; (2) register-register ALU group incl. MUL/DIV: random operand pairs for all 16 register pairs (thorough: all 65 536 pairs x carry-in for pages 6-D); (3) unary ops x values x 16 flag states (thorough: all 256 x 16); (4) random instruction sequences of up to 200 instructions over opcode-biased images (self-modifying code, PC running into I/O, stale scratch registers); each instruction is executed on the real machine from its boundary and compared with Isa.step (spec.isa), and the model machine is compared after every instruction (d); distinct = distinct (opcode, second byte, registers, code bytes)",
      explanation="MISR is outside the architectural comparison except for RETI's documented clearing of the key bits",
      assumptions=["interrupt flip-flop clear during the instruction (interrupt entry is C04)", "halting (supervision, opcodes 0x00/0x01) is lifted in the harness runs and treated in C05"],
@@ -166,7 +168,7 @@ prop("C04",
      harness="c04",
      shrink=False,
      exhaustive={"quick": False, "thorough": False},
-     level_text="Lean theorems over the regenerated control store: a key press sets the flip-flop iff MICR's key-edge enable bit is set and otherwise only sets a status bit (trigger_*); the flip-flop is untouched by every micro-step that is not an end word (sampled_only_at_end; instr_to_end: for every covered instruction and ANY state of the flip-flop the instruction runs to its end word with exactly Isa.step's effect) - so a request raised in any cycle is looked at only between two instructions; int_taken: with the request pending and IEF set at the end of the instruction the machine reaches, 9 micro-steps later, the first boundary of the routine in state intEntry(result) (FR and next address pushed, upper FR bits cleared, PC = 2) with the flip-flop clear (hence once), with IEF clear the request is dropped; reti_entry_roundtrip (specification level): RETI on the stack left by intEntry restores PC, FR incl. IEF and SP. MUL/DIV are outside instr_to_end (see C01). Every-cycle sweeps on the real machine check count and transparency",
+     level_text="Lean theorems over the regenerated control store: a key press sets the flip-flop iff MICR's key-edge enable bit is set and otherwise only sets a status bit (trigger_*); the flip-flop is untouched by every micro-step that is not an end word (sampled_only_at_end; instr_to_end: for every covered instruction and ANY state of the flip-flop the instruction runs to its end word with exactly Isa.step's effect) - so a request raised in any cycle is looked at only between two instructions; int_taken: with the request pending and IEF set at the end of the instruction the machine reaches, 9 micro-steps later, the first boundary of the routine in state intEntry(result) (FR and next address pushed, upper FR bits cleared, PC = 2) with the flip-flop clear (hence once), with IEF clear the request is dropped; reti_entry_roundtrip (specification level): RETI on the stack left by intEntry restores PC, FR incl. IEF and SP. instr_to_end covers every defined instruction incl. MUL and DIV (their loops never touch the flip-flop). Every-cycle sweeps on the real machine check count and transparency",
      technique="Lean 4 symbolic execution of the interrupt-entry routine generic in the end word + per-instruction end-word lemmas (generated) + every-clock-cycle trigger sweep on the real machine",
      rule="generated main programs (LDSP, MICR enable + EI at a random point, 6-15 random ALU/MUL/DIV/PUSH/POP/memory/output/CMP instructions, optionally DI..EI sections, CALL/RET, final spin loop) with a register-preserving interrupt routine that bumps a RAM counter; the key is pressed at EVERY clock cycle 0..T+6 (one run per cycle): expected count = (MICR key enable at the trigger cycle) AND (IEF as left by the first end word after the trigger), and the final registers, flags, SP, PC, outputs and RAM (without the counter and the dead stack area) must equal the uninterrupted run; pairs of triggers in a 12/40-cycle window: count <= 2 and transparency; the model machine is compared at the trigger and 120 edges after the sampling point; distinct = (program, cycle)",
      explanation="`enabled` in the property means: enable bit set when the key is pressed and IEF set at the next sampling point; EI, DI and RETI end without sampling (the request stays pending over them)",
